@@ -126,8 +126,8 @@ def _case(item):
         else:
             exp = want.decode("latin1" if kind == "binary" else "utf-8")
             exp = exp.replace("\r\n", "\n").replace("\r", "\n")
-            if shape.startswith("$(") and exp.endswith("\n") and exp.count("\n") == 1:
-                exp = exp[:-1]
+            if exp.endswith("\n") and exp.count("\n") == 1:
+                exp = exp[:-1]  # stream_lines format of `$()` and of `.out`: a single line loses its newline
             if kind == "binary":
                 # text views decode with the session encoding: compare through the same lens
                 exp = want.decode("utf-8", errors="replace").replace("\r\n", "\n").replace("\r", "\n") if False else exp
@@ -147,9 +147,9 @@ def _case(item):
             break
         if shape.startswith("!(") and grc != rc:
             # This part runs free: a wrong code is only reported when it is wrong on three more runs in
-            # a row (the scheduled tiers T2/T3 decide the return-code clause deterministically).  A rare
-            # timing-dependent 0 has been observed on the unchanged tree (1 in ~1000 under heavy load;
-            # see DESIGN 8.3 "returncode race") and must not make this check flaky.
+            # a row (the scheduled tiers T2/T3 decide the return-code clause deterministically), and
+            # occurrences are counted in the evidence.  (The wrong codes seen in round 1 were a harness
+            # artefact - a cooperative Popen._waitpid_lock left behind by T3 - see DESIGN 7.)
             again = 0
             for _ in range(3):
                 ctx.pop("__rc", None)
